@@ -86,55 +86,50 @@ def setVerb (api : RestAPI) (name : String) : RestAPI :=
 def isMapping (n : String) : Bool :=
   n == "RequestMapping" || n == "GetMapping" || n == "PutMapping" || n == "PostMapping" || n == "DeleteMapping"
 
-/-- `buildBaseApiUrlString` (class-level @RequestMapping) -/
-def baseOf (st : ASt) (a : AnnoEv) : Except String ASt :=
+/-- `buildBaseApiUrlString` (class-level @RequestMapping); a value shorter than two bytes is left alone -/
+def baseOf (st : ASt) (a : AnnoEv) : ASt :=
   if a.name == "RequestMapping" then
     match a.args with
     | .pairs kvs =>
-      kvs.foldl (fun acc kv => match acc with
-        | .error e => .error e
-        | .ok s => if kv.1 == "value" then
-            (match stripEnds kv.2 with
-             | some t => .ok { s with baseApiUrl := t }
-             | none => .error "slice bounds out of range")
-          else .ok s) (.ok st)
+      kvs.foldl (fun s kv => if kv.1 == "value" then
+          (match stripEnds kv.2 with
+           | some t => { s with baseApiUrl := t }
+           | none => s)
+        else s) st
     | .positional t =>
       match stripEnds t with
-      | some x => .ok { st with baseApiUrl := x }
-      | none => .error "slice bounds out of range"
-    | .none => .ok { st with baseApiUrl := "/" }
-  else .ok st
+      | some x => { st with baseApiUrl := x }
+      | none => st
+    | .none => { st with baseApiUrl := "/" }
+  else st
 
 def removeQuotes (s : String) : String := s.replace "\"" ""
 
 /-- `EnterAnnotation` -/
-def onAnno (st : ASt) (a : AnnoEv) : Except String ASt :=
+def onAnno (st : ASt) (a : AnnoEv) : ASt :=
   let st1 := if a.name == "RestController" || a.name == "Controller" then { st with isController := true } else st
-  if !st1.isController then .ok st1 else
-  match (if !st1.hasEnterClass then baseOf st1 a else .ok st1) with
-  | .error e => .error e
-  | .ok st2 =>
-    if Gen.Api.classLevelReturns && !st1.hasEnterClass then .ok st2 else
-    if !isMapping a.name then .ok st2 else
-    let uri := match a.args with
-      | .positional t => st2.baseApiUrl ++ t
-      | _ => st2.baseApiUrl
-    let st3 := { st2 with hasEnterRest := true, current := { uri := removeQuotes uri } }
-    let st4 := if a.name != "RequestMapping" then
-        (if st3.hasEnterClass then { st3 with current := setVerb st3.current a.name } else st3) else st3
-    if a.name != "RequestMapping" && !Gen.Api.pairsForAllMappings then .ok st4 else
-    match a.args with
-    | .pairs kvs =>
-      kvs.foldl (fun acc kv => match acc with
-        | .error e => .error e
-        | .ok s =>
-          let s1 := if kv.1 == "method" && a.name == "RequestMapping" then { s with current := setVerb s.current kv.2 } else s
-          if kv.1 == "value" then
-            (match stripEnds kv.2 with
-             | some t => .ok { s1 with current := { s1.current with uri := s1.baseApiUrl ++ t } }
-             | none => .error "slice bounds out of range")
-          else .ok s1) (.ok st4)
-    | _ => .ok st4
+  -- class-level annotation: only the base path, whether before or after the controller annotation
+  if !st1.hasEnterClass && Gen.Api.classLevelReturns then baseOf st1 a else
+  let st2 := if !st1.hasEnterClass then baseOf st1 a else st1
+  if !st2.isController then st2 else
+  if !isMapping a.name then st2 else
+  let uri := match a.args with
+    | .positional t => st2.baseApiUrl ++ t
+    | _ => st2.baseApiUrl
+  let st3 := { st2 with hasEnterRest := true, current := { uri := removeQuotes uri } }
+  let st4 := if a.name != "RequestMapping" then
+      (if st3.hasEnterClass then { st3 with current := setVerb st3.current a.name } else st3) else st3
+  if a.name != "RequestMapping" && Gen.Api.nonRequestMappingReturns then st4 else
+  match a.args with
+  | .pairs kvs =>
+    kvs.foldl (fun s kv =>
+      let s1 := if kv.1 == "method" && a.name == "RequestMapping" then { s with current := setVerb s.current kv.2 } else s
+      if kv.1 == "value" then
+        (match stripEnds kv.2 with
+         | some t => { s1 with current := { s1.current with uri := s1.baseApiUrl ++ t } }
+         | none => s1)
+      else s1) st4
+  | _ => st4
 
 /-- `EnterMethodDeclaration` (the `implements … @ServiceMethod` path is not modelled: `curImplements`
     is empty for the conventional controllers of C12) -/
@@ -153,7 +148,7 @@ def onMethod (st : ASt) (name : String) (params : List ParamEv) : ASt :=
 def onEv (st : ASt) : Ev → Except String ASt
   | .pkg n => .ok { st with curPkg := n }
   | .imp _ => .ok st
-  | .anno a => onAnno st a
+  | .anno a => .ok (onAnno st a)
   | .enterClass n impl => .ok { st with hasEnterClass := true, curClz := n, curImplements := impl }
   | .exitClass => .ok { st with hasEnterClass := false }
   | .method n ps => .ok (onMethod st n ps)
